@@ -15,6 +15,7 @@ import (
 	"math/big"
 	"reflect"
 	"strings"
+	"sync"
 	"sync/atomic"
 	"time"
 	"unsafe"
@@ -90,7 +91,18 @@ func isByteKind(t reflect.Type) bool { return t.Kind() == reflect.Uint8 }
 //   - types with a hand-written EncodeSER/DecodeSER pair: Transaction / TokenTransaction delegate to their
 //     unexported `data` struct; types.Log carries its three "consensus fields" only (types/log.go documents the
 //     others as derived, not secured by consensus); LogForStorage carries every exported field.
+var serFieldsCache sync.Map
+
 func serFields(t reflect.Type) []int {
+	if v, ok := serFieldsCache.Load(t); ok {
+		return v.([]int)
+	}
+	out := serFields1(t)
+	serFieldsCache.Store(t, out)
+	return out
+}
+
+func serFields1(t reflect.Type) []int {
 	var out []int
 	if reflect.PtrTo(t).Implements(encoderType) {
 		if f, ok := t.FieldByName("data"); ok && f.Type.Kind() == reflect.Struct && len(f.Index) == 1 {
